@@ -197,8 +197,10 @@ def _dotted(node):
 class Program(object):
     PKG = 'pgpy'
 
-    def __init__(self, root='/repo'):
+    def __init__(self, root='/repo', overlay=None):
+        """overlay: relpath -> source text replacing the file on disk (used by the sensitivity self-test; in memory only)."""
         self.root = root
+        self.overlay = overlay or {}
         self.modules = {}
         self.classes_by_name = {}
         pkgdir = os.path.join(root, self.PKG)
@@ -214,8 +216,11 @@ class Program(object):
                 modname = rel[:-3].replace(os.sep, '.')
                 if modname.endswith('.__init__'):
                     modname = modname[:-len('.__init__')]
-                with open(path, encoding='utf-8') as fh:
-                    src = fh.read()
+                if rel in self.overlay:
+                    src = self.overlay[rel]
+                else:
+                    with open(path, encoding='utf-8') as fh:
+                        src = fh.read()
                 try:
                     self.modules[modname] = Module(modname, path, rel, src)
                 except SyntaxError as ex:
